@@ -5,10 +5,14 @@ as handlers return without blocking, in arrival order.  A handler or callback ma
 the same connection, to any nesting depth, without stalling the connection: processing of later incoming messages
 (including the awaited response) continues while it waits."
 
-Beyond the wording, `judge` also checks the order of *dispatch* in every history (clause `dispatch-order`): handlers and
-observation callbacks are entered in arrival order whether or not handlers block — the receive queue is first-in first-out and
-a message is handed to its handler by whoever took it (`Props.C11.dispatch_fifo` for the model) — up to one position, because
-two loops that take at the same instant log their entries concurrently.
+Beyond the wording, `judge` can also check the order of *dispatch* (clause `dispatch-order`, parameter `oneDispatcher`): handlers and
+observation callbacks are entered in arrival order whether or not handlers block — the receive queue is first-in first-out and a
+message is handed to its handler by whoever took it (`Props.C11.dispatch_fifo` for the model).  What an observer sees is handler
+*entries*, not takes: when two loops are alive side by side (a loop that was replaced in the middle of dispatching a message goes on
+with it next to its replacement; a replaced loop wins one more message at its select while the current loop is free to take too)
+the later take can reach its handler first, by any margin, and the property promises no order there (a handler blocks).  The
+clause is therefore applied only to histories in which at every moment at most one loop can be dispatching (`oneDispatcher`, decided
+by the caller from the model's run of the history); histories without blocking handlers are always of that kind.
 
 A *history* is the sequence of things an observer sees: requests the peer sent (with the kind of handler they trigger),
 answers the peer sent to nested calls, handler entries and exits, returns of nested calls, the close of the connection.
@@ -65,7 +69,7 @@ def jrun : JState → List HEv → Except String JState
     | .error c => .error c
 
 /-- `pending`: messages the socket reader could not yet hand over at the end of the history -/
-def judge (hist : List HEv) (pending : Nat) : Option String :=
+def judge (hist : List HEv) (pending : Nat) (oneDispatcher : Bool := true) : Option String :=
   match jrun {} hist with
   | .error c => some c
   | .ok s =>
@@ -74,15 +78,14 @@ def judge (hist : List HEv) (pending : Nat) : Option String :=
     let inStretch (k : Nat) (m : Nat) : Bool := s.stretchOf.contains (m, k)
     let bad := (List.range (s.stretch + 1)).any fun k =>
       s.entered.filter (inStretch k) ≠ (s.arrived.filter (inStretch k)).filter (s.entered.contains ·)
-    -- dispatched in arrival order, whatever the handlers do: the receive queue is first-in first-out and a message is handed to
-    -- its handler (or callback) by whoever took it from the queue.  Two loops that take at the same instant may log their
-    -- entries in either order, so a position may differ by one; a message that is overtaken by two later ones was not
-    -- dispatched in order.
+    -- dispatched in arrival order, whatever the handlers do, as long as one loop dispatches at a time: the receive queue is first-in
+    -- first-out and a message is handed to its handler (or callback) by whoever took it from the queue.  (A position may differ by
+    -- one: a loop that leaves and its successor may log entries at the same instant.)
     let arrivedEntered := s.arrived.filter (s.entered.contains ·)
     let pos (l : List Nat) (m : Nat) : Nat := (l.findIdx? (· == m)).getD 0
     let displaced := s.entered.any fun m => pos arrivedEntered m > pos s.entered m + 1 || pos s.entered m > pos arrivedEntered m + 1
     if bad then some "out-of-order"
-    else if displaced then some "dispatch-order"
+    else if oneDispatcher && displaced then some "dispatch-order"
     -- never dropped while the connection is open (everything was handed over and the connection is still open)
     else if !s.closed && pending = 0 && s.arrived.any (fun m => !s.entered.contains m) then some "dropped"
     else if !s.closed && pending > 0 then some "nested-stall"
